@@ -338,6 +338,17 @@ pub fn run(tier: Tier) -> RunOutcome {
 /// the same solver solved twice / after an interrupted solve
 fn run_resolve(opts: &GenOpts) -> RunOutcome {
     let mut out = RunOutcome::default();
+    // badly scaled data as well: that an identical call repeats bit for bit does not depend on
+    // the solve going well (a failed initial KKT solve, a breakdown at iteration 1, ...)
+    let mut opts = opts.clone();
+    if chance("hostile_scaling", 1, 2) {
+        // (with the larger shapes of the thorough tier in both tiers: breakdowns of the
+        // initial KKT solve need some size)
+        probe("c05_resolve_on_badly_scaled_problem");
+        opts = GenOpts::thorough();
+        opts.max_scale_pow = [8, 16, 24][choose("scale_pow", 3) as usize];
+    }
+    let opts = &opts;
     let prob = with_sim(|s| gen_problem(&mut s.cs, opts));
     let settings = with_sim(|s| gen_settings(&mut s.cs, false));
     let mut profile = ClockProfile::fine(choose("clkseed", 1 << 16) as u64);
